@@ -164,6 +164,10 @@ func checkMain(args []string) {
 				order = append(order, name)
 			}
 		}
+		if hasProp(c.AlsoFor, prop) && !selected[name] {
+			selected[name] = true
+			order = append(order, name)
+		}
 	}
 	var results []*FuncResult
 	done := map[string]bool{}
@@ -177,6 +181,7 @@ func checkMain(args []string) {
 		done[name] = true
 		c := prog.contracts.Funcs[name]
 		r := prog.verifyFunc(name, c)
+		r.TaggedOnly = c != nil && hasProp(c.AlsoFor, prop) && !hasProp(c.Props, prop)
 		results = append(results, r)
 		// untagged callee contracts are verified here as well
 		if r.VC != nil {
